@@ -143,8 +143,11 @@ func corrC01(r *Run) {
 	n := r.N(30, 800)
 	caseBudget := r.N(330, 6000)
 	bigBudget := r.N(14, 400) // frames of several KiB are slow to parse inside coqc: a fixed number per run
+	vol := &pduVolume{}
+	defer vol.diff(r)
+	volPerType := r.N(120, 2500) // further values per type, for the direct tests and the extracted model only
 	for _, t := range ts {
-		for i := 0; i < n; i++ {
+		for i := 0; i < n+volPerType; i++ {
 			p := genPDU(r.Rng, t, modeDomain)
 			switch {
 			case i%10 == 6 || i%10 == 7 || i%10 == 3:
@@ -166,7 +169,9 @@ func corrC01(r *Run) {
 			orig := clonePDU(p)
 			term := coqValue(orig)
 			r.SetReplay(replayValue(orig))
+			valueLine := canonValueLine(orig)
 			_, err, w, panicked, pmsg := marshalRec(p)
+			vol.marshal(t.ID, valueLine, term, err, panicked, w)
 			in := fmt.Sprintf("roundtrip %s %s", t.Name, term)
 			if len(in) > 4000 {
 				in = in[:4000] + "…"
@@ -187,6 +192,9 @@ func corrC01(r *Run) {
 			sched := randomSched(r.Rng, len(frame))
 			c := &chunkReader{data: append(append([]byte(nil), frame...), 0xEE, 0xEE), sched: sched}
 			o := readOnce(c)
+			if o.Kind != "neither" {
+				vol.readone(c.data, sched, o)
+			}
 			bucket := t.Name + "/ok"
 			if statusCase {
 				bucket = t.Name + "/status"
@@ -232,7 +240,7 @@ func corrC01(r *Run) {
 				}
 			}
 			// model: Marshal produces this frame; ReadPDU under this schedule gives this observation
-			if caseBudget > 0 && (len(frame) < 2500 || (len(frame) < 20000 && bigBudget > 0)) {
+			if i < n && caseBudget > 0 && (len(frame) < 2500 || (len(frame) < 20000 && bigBudget > 0)) {
 				if len(frame) >= 2500 {
 					bigBudget--
 				}
